@@ -93,6 +93,7 @@ def gen_nest(rng, depth, outer_flavour, explicit_procs=False):
         backends += ["loky", "multiprocessing"]
     return {"n": rng.randint(1, 4), "n_jobs": rng.choice([1, 2, 3, -1]), "backend": rng.choice(backends),
             "prefer": rng.choice([None, None, "threads", "processes"]),
+            "require": rng.choice([None, None, None, "sharedmem"]),
             "nest": gen_nest(rng, depth + 1, outer_flavour, explicit_procs)}
 
 
@@ -110,6 +111,12 @@ def gen_case(rng):
             "calls": [{"n": n, "dur": [rng.choice([0.0, 0.01, 0.3, 1.0]) for _ in range(n)],
                        "nest": gen_nest(rng, 1, fl, fl == "T" and resolve(n_jobs, c) not in ("ValueError", 1)) if fl != "G" else None}],
             "strategy": ds.draw_strategy(rng), "sched_seed": rng.randrange(1 << 31)}
+    if rng.random() < 0.2 and not case["managed"]:
+        # the machine changes while the process lives (affinity mask narrowed or widened, another LOKY_MAX_CPU_COUNT ...):
+        # a second call must resolve n_jobs on the machine as it is then
+        case["machine2"] = gen_machine(rng)
+        n2 = rng.choice([1, 3, 6])
+        case["calls"].append({"n": n2, "dur": [rng.choice([0.0, 0.01, 0.3]) for _ in range(n2)], "nest": None})
     return case
 
 
@@ -202,6 +209,8 @@ def run_nested(w, c, i, nest, path=()):
         kw["backend"] = nest["backend"]
     if nest.get("prefer"):
         kw["prefer"] = nest["prefer"]          # a soft hint: must not bring processes into a worker
+    if nest.get("require") and nest.get("prefer") != "processes" and nest.get("backend") in (None, "threading"):
+        kw["require"] = nest["require"]        # a constraint the sequential fall-back satisfies: must not bring threads back
     w.nest_level[me.name] += 1
     w.explicit_nest[me.name] += bool(nest["backend"])
     try:
@@ -358,6 +367,12 @@ def run_case(case):
         jb.cpu_count = loky.cpu_count          # the real one, on the simulated machine
         jp.cpu_count = jp.__dict__.get("_orig_cpu_count", jp.cpu_count)
         w.run_nested = lambda cc, i, nest: run_nested(w, cc, i, nest)
+        if case.get("machine2"):
+            def remachine(w_, s_, p, c_):
+                if c_ == 1:
+                    install_machine(case["machine2"])
+                    w_.probes["machine_changed_between_calls"] += 1
+            w.call_hooks = [remachine]
         # workers of the process flavours are main threads of their own (for MemmappingPool: daemonic) process
         import multiprocessing as _mp, types as _types
 
@@ -414,10 +429,37 @@ def oracle(w, s, case, c, exp):
     if list(rec["values"]) != [pc.value_of(0, i) for i in range(call["n"])]:
         return V("wrong_result", "returned %s" % (str(rec["values"])[:200],))
     # cpu_count on this machine (evaluated inside the run by joblib; re-evaluated here in the child)
-    got_c = cpu_count()
-    if got_c != c or got_c < 1:
-        return V("cpu_count", "cpu_count()=%s on machine %s, usable=%s" % (got_c, case["machine"], c))
-    outer = [f for f in w.factory_calls if not f[3] and not f[4]]     # by the outer call itself
+    cut = 10 ** 12
+    all_events = w.events
+    if case.get("machine2") and len(w.calls) > 1:
+        cut = next((e[0] for e in w.events if e[2] == "call_begin" and e[3] == 1), cut)
+        m2 = case["machine2"]; c2 = usable_cpus(m2); exp2 = resolve(case["n_jobs"], c2)
+        got_c = cpu_count()
+        if got_c != c2 or got_c < 1:
+            return V("cpu_count", "cpu_count()=%s after the machine changed from %s to %s, usable=%s" % (got_c, case["machine"], m2, c2),
+                     machine_changed=True)
+        rec1 = w.calls[1]; o1 = rec1["outcome"]
+        if o1["kind"] != "ok" or list(rec1["values"]) != [pc.value_of(1, i) for i in range(case["calls"][1]["n"])]:
+            return V("wrong_result", "second call (after the machine changed): %s %s" % (o1, str(rec1["values"])[:100]), machine_changed=True)
+        sizes1 = [f[1] for f in w.factory_calls if f[-1] >= cut and not f[3] and not f[4] and f[0] in ("pool_created", "factory_executor", "factory_generic")]
+        # (an object whose first call resolved to one job has replaced its backend by the sequential one for good: by design)
+        if fl != "G" and exp != 1 and ((exp2 == 1 and sizes1) or (exp2 != 1 and (not sizes1 or any(z != exp2 for z in sizes1)))):
+            return V("wrong_pool_size", "n_jobs=%s: the machine changed from %s (%d usable CPUs) to %s (%d usable): the second call "
+                     "resolves to %s but requested pools of sizes %s" % (case["n_jobs"], case["machine"], c, m2, c2, exp2, sizes1), machine_changed=True)
+        hi1 = 0; cur1 = 0
+        for e in w.events:
+            if e[0] >= cut and e[2] == "tstart":
+                cur1 += 1; hi1 = max(hi1, cur1)
+            elif e[0] >= cut and e[2] == "tend":
+                cur1 -= 1
+        if hi1 > exp2:
+            return V("too_many_running", "second call (after the machine changed): %d tasks at once, resolved n_jobs=%d" % (hi1, exp2), machine_changed=True)
+        w.events = [e for e in w.events if e[0] < cut]
+    else:
+        got_c = cpu_count()
+        if got_c != c or got_c < 1:
+            return V("cpu_count", "cpu_count()=%s on machine %s, usable=%s" % (got_c, case["machine"], c))
+    outer = [f for f in w.factory_calls if not f[3] and not f[4] and f[-1] < cut]     # by the outer call itself
     inner = [f for f in w.factory_calls if f[3]]
     sizes = [f[1] for f in outer if f[0] in ("pool_created", "executor_created", "factory_generic")]
     if exp == 1:
